@@ -47,7 +47,8 @@ PROPS = {
         "level": "proof",
     },
     "C14": {
-        "vx": ["smt_patterns"],
+        "vx": ["smt_patterns", "smt_reader_errors"],
+        "kl": ["smt_lexer"],
         "ax": True,
         "level": "proof",
     },
